@@ -45,11 +45,13 @@ const c18ReplyTopic = "replies"
 // one delivery of the command, as scripted
 type c18Step struct {
 	Res     string `json:"res"`
-	Err     string `json:"err"`     // "" = handler succeeds
+	Fail    bool   `json:"fail"`    // the handler returns an error ...
+	Err     string `json:"err"`     // ... with this text (the empty text is a legal error text)
 	PubFail bool   `json:"pubfail"` // the reply publisher fails for this delivery
 	Swallow bool   `json:"swallow"` // ReplyPublishErrorHandler (if configured) returns nil
 	Inject  []int  `json:"inject"`  // published on the reply topic before the handler returns:
-	// 1 foreign op id, 2 no op id, 3 own op id + malformed payload, 4 foreign + malformed, 5 own op id, error reply
+	// 1 foreign op id, 2 no op id, 3 own op id + malformed payload, 4 foreign + malformed, 5 own op id, error reply,
+	// 6 own op id, has_error=1 with EMPTY error text, 7 own op id, has_error=0 although an error text is present
 }
 
 type c18Notif struct {
@@ -63,7 +65,8 @@ type c18Notif struct {
 type c18Reply struct {
 	Kind int `json:"kind"` // 0 own, 1 unmarshal, 2 timeout, 3 subscriber closed, 9 unclassifiable
 	Res  int `json:"res"`
-	Err  int `json:"err"` // 0 = nil error
+	HasErr bool `json:"haserr"` // Reply.Error != nil (handler error)
+	Err  int `json:"err"` // interned text of the handler error (0 = "")
 	Nid  int `json:"nid"`
 }
 
@@ -71,7 +74,8 @@ type c18Delivery struct {
 	K      int             `json:"k"`
 	Op     int             `json:"op"`   // op id metadata of the command message
 	Res    int             `json:"res"`  // interned result
-	Err    int             `json:"err"`  // interned error text, 0 = nil
+	HasErr bool            `json:"haserr"` // the handler returned an error
+	Err    int             `json:"err"`  // interned error text (0 = "")
 	Nid    int             `json:"nid"`  // uuid of the published notification (0 if none)
 	Enc    [2]int          `json:"enc"`  // harness json.Marshal(result): res id -> payload id (-1 = error)
 	Step   c18Step         `json:"step"`
@@ -304,10 +308,8 @@ func (w *c18World) classify(err error, res interface{}, nm *message.Message) c18
 		}
 	default:
 		r.Kind = 0
+		r.HasErr = true
 		r.Err = w.errID(err.Error())
-		if err.Error() == "" {
-			r.Kind = 9
-		}
 	}
 	return r
 }
@@ -336,7 +338,10 @@ func (w *c18World) handle(ctx context.Context, cmd *c18Cmd) (c18Res, error) {
 	} else {
 		d.Res = w.resID(struct{}{})
 	}
-	d.Err = w.errID(step.Err)
+	d.HasErr = step.Fail
+	if step.Fail {
+		d.Err = w.errID(step.Err)
+	}
 	if orig != nil {
 		d.Op = w.opID(orig.Metadata.Get(requestreply.OperationIDMetadataKey))
 		if req.cmdUUID == "" {
@@ -374,6 +379,20 @@ func (w *c18World) handle(ctx context.Context, cmd *c18Cmd) (c18Res, error) {
 		case 4:
 			m.Metadata.Set(requestreply.OperationIDMetadataKey, "someone-else")
 			m.Payload = []byte(`not json`)
+		case 6:
+			m.Metadata.Set(requestreply.OperationIDMetadataKey, opid)
+			m.Metadata.Set(requestreply.HasErrorMetadataKey, "1")
+			m.Metadata.Set(requestreply.ErrorMetadataKey, "")
+			if !w.sc.WithResult {
+				m.Payload = []byte(`{}`)
+			}
+		case 7:
+			m.Metadata.Set(requestreply.OperationIDMetadataKey, opid)
+			m.Metadata.Set(requestreply.HasErrorMetadataKey, "0")
+			m.Metadata.Set(requestreply.ErrorMetadataKey, "stale error text "+req.ID)
+			if !w.sc.WithResult {
+				m.Payload = []byte(`{}`)
+			}
 		default:
 			m.Metadata.Set(requestreply.OperationIDMetadataKey, opid)
 			m.Metadata.Set(requestreply.HasErrorMetadataKey, "1")
@@ -386,7 +405,7 @@ func (w *c18World) handle(ctx context.Context, cmd *c18Cmd) (c18Res, error) {
 			w.problem("inject: %v", err)
 		}
 	}
-	if step.Err != "" {
+	if step.Fail {
 		return res, errors.New(step.Err)
 	}
 	return res, nil
@@ -500,7 +519,7 @@ func (w *c18World) expectedOwn(req *c18Req) int {
 			st = req.Steps[k]
 		}
 		for _, j := range st.Inject {
-			if j == 3 || j == 5 {
+			if j == 3 || j >= 5 {
 				n++
 			}
 		}
@@ -508,7 +527,7 @@ func (w *c18World) expectedOwn(req *c18Req) int {
 		if out {
 			n++
 		}
-		acked := (out || (w.sc.HasErrH && st.Swallow)) && (w.sc.AckErrors || st.Err == "")
+		acked := (out || (w.sc.HasErrH && st.Swallow)) && (w.sc.AckErrors || !st.Fail)
 		if acked || k > 20 {
 			return n
 		}
@@ -679,7 +698,8 @@ func c18ParkedListeners() int {
 		if i := strings.IndexByte(g, '\n'); i >= 0 {
 			head = g[:i]
 		}
-		if strings.Contains(head, "[chan send") {
+		// blocked (not runnable): in the reply send, or in a select none of whose cases is ready
+		if strings.Contains(head, "[chan send") || strings.Contains(head, "[select") {
 			parked++
 		}
 	}
@@ -1060,6 +1080,28 @@ func c18RunScenario(rt *hookrt.Runtime, sc *c18Scenario, in *script.Interner) er
 
 // ---------------------------------------------------------------- generator
 
+// error texts: mostly ordinary, with the edge texts over-weighted (an error whose text is empty is still an error)
+func c18ErrText(rng *rand.Rand, id string, k int) string {
+	switch rng.Intn(12) {
+	case 0, 1:
+		return ""
+	case 2:
+		return " "
+	case 3:
+		return "0"
+	case 4:
+		return "1"
+	case 5:
+		return "same error" // equal texts across requesters
+	case 6:
+		return "quoted \"text\" with\nnewline, unicode \u00fc\u4e16 and a NUL-free tail"
+	case 7:
+		return strings.Repeat("long error ", 40)
+	default:
+		return fmt.Sprintf("err %s/%d", id, k)
+	}
+}
+
 func c18GenReq(rng *rand.Rand, sc *c18Scenario, id string, forceLeak int) *c18Req {
 	req := &c18Req{ID: id}
 	n := 1 + rng.Intn(3)
@@ -1071,6 +1113,8 @@ func c18GenReq(rng *rand.Rand, sc *c18Scenario, id string, forceLeak int) *c18Re
 		st := c18Step{Res: fmt.Sprintf("%s-res%d", id, k)}
 		if rng.Intn(3) == 0 {
 			st.Res = "same" // equal results across requesters: only the op id tells replies apart
+		} else if rng.Intn(8) == 0 {
+			st.Res = ""
 		}
 		if !last {
 			// must end in a Nack
@@ -1078,15 +1122,15 @@ func c18GenReq(rng *rand.Rand, sc *c18Scenario, id string, forceLeak int) *c18Re
 				st.PubFail = true
 				st.Swallow = false
 				if rng.Intn(2) == 0 {
-					st.Err = fmt.Sprintf("err %s/%d", id, k)
+					st.Fail, st.Err = true, c18ErrText(rng, id, k)
 				}
 			} else {
-				st.Err = fmt.Sprintf("err %s/%d", id, k)
+				st.Fail, st.Err = true, c18ErrText(rng, id, k)
 			}
 		} else {
 			// must end in an Ack
 			if sc.AckErrors && rng.Intn(2) == 0 {
-				st.Err = fmt.Sprintf("final err %s", id)
+				st.Fail, st.Err = true, c18ErrText(rng, id, k)
 			}
 			if sc.HasErrH && rng.Intn(4) == 0 {
 				st.PubFail = true
@@ -1095,7 +1139,7 @@ func c18GenReq(rng *rand.Rand, sc *c18Scenario, id string, forceLeak int) *c18Re
 		}
 		if rng.Intn(3) == 0 {
 			for j := rng.Intn(3) + 1; j > 0; j-- {
-				st.Inject = append(st.Inject, 1+rng.Intn(5))
+				st.Inject = append(st.Inject, 1+rng.Intn(7))
 			}
 		}
 		req.Steps = append(req.Steps, st)
@@ -1124,6 +1168,10 @@ func c18GenReq(rng *rand.Rand, sc *c18Scenario, id string, forceLeak int) *c18Re
 		if len(req.Steps) == 1 {
 			req.Steps[0].Inject = append(req.Steps[0].Inject, 5)
 		}
+	case 4: // ListenForReplyTimeout passes while the caller's own context is alive, the caller is not reading and the listener holds further replies
+		req.API, req.End, req.Sync, req.Drain = 0, 2, true, false
+		req.Reads = rng.Intn(2)
+		req.Steps[0].Inject = append(req.Steps[0].Inject, 5, 6)
 	}
 	return req
 }
@@ -1138,14 +1186,22 @@ func c18Gen(rng *rand.Rand, idx int, maxReqs int) *c18Scenario {
 	if rng.Intn(4) == 0 {
 		sc.TimeoutMs = 30 + rng.Intn(50)
 	}
+	if idx < 6 {
+		sc.TimeoutMs = 0
+	} else if idx < 9 {
+		sc.TimeoutMs = 80
+	}
 	n := 1 + rng.Intn(maxReqs)
 	if idx%7 == 3 {
 		n = maxReqs
 	}
 	for i := 0; i < n; i++ {
 		force := 0
-		if idx < 6 && i == 0 && sc.TimeoutMs == 0 {
+		if idx < 6 && i == 0 {
 			force = 1 + idx%3
+		}
+		if idx >= 6 && idx < 9 && i < 2 {
+			force = 4
 		}
 		sc.Reqs = append(sc.Reqs, c18GenReq(rng, sc, fmt.Sprintf("s%dr%d", idx, i), force))
 	}
